@@ -74,7 +74,7 @@ THEOREMS = [
         "vector_input_is_row write_input_normalised plumb_spec write_replaces_file read_back_bits read_back_bits_subnormal "
         "read_back_bits_finite read_back_needs_17 dir_matches_load_ascii sparse_views_ascii "
         # Props/C04Fix.lean: the repair candidates for F2 / F3 (patched writers, Model/Op4Fixed.lean)
-        "split_strings_spec nonbigmat_never_overflows_fixed nonbigmat_writes_fixed column_roundtrip_nonbigmat_fixed nonbigmat_unchanged_fixed fmtE_width_fixed width_fixed field_roundtrip_fixed ascii_value_half_unit_fixed ascii_values_roundtrip_fixed file_writes_fixed file_roundtrip_binary_fixed file_roundtrip_ascii_fixed decOfFx_zero ascii_entry_spec_fixed write_domain_fixed file_roundtrip_binary_domain_fixed file_roundtrip_bytes_domain_fixed"
+        "split_strings_spec nonbigmat_never_overflows_fixed nonbigmat_writes_fixed column_roundtrip_nonbigmat_fixed nonbigmat_unchanged_fixed file_writes_fixed file_roundtrip_binary_fixed write_domain_fixed file_roundtrip_binary_domain_fixed file_roundtrip_bytes_domain_fixed decOf_cases writer_eq_unsplit file_writer_eq_unsplit"
     ).split()
 ]
 TRUSTED = [
@@ -202,8 +202,8 @@ MANIFEST = {
 }
 
 FIXED_F49 = "op4-binary-dense-sparse-input-record-ge-2GiB-int32-wrap"
-KNOWN_F2 = "op4-binary-nonbigmat-string-ge-16384-rows"
-KNOWN_F3 = "op4-ascii-negative-3digit-exponent"
+FIXED_F2 = "op4-binary-nonbigmat-string-ge-16384-rows"  # repaired in /repo (fix: 27f7d6b, _split_strings): regression guard
+FIXED_F3 = "op4-ascii-negative-3digit-exponent"  # repaired in /repo (fix: 7ee1407, numform(value)): regression guard
 FIXED_F24 = "op4-binary-skip-zero-column-matrix"  # found by this check, repaired in /repo (fix: commit 24d6cc5)
 
 # ---------------------------------------------------------------------------------------------
@@ -1465,8 +1465,7 @@ def correspondence(ctx):
         vals += [0.5, 1.5, 2.5, 0.125, 0.375, 9.5, 99.5, 0.95, 9.9999999999999999e22, 1e23, 4.35, 0.15, 2.675]
         for x in vals:
             for d in (16, rng.choice([1, 2, 3, 5, 9, 12, 17, 20]), rng.choice([0, 1, 7])):
-                numlen = d + 7
-                want = ("%" + "%d.%dE" % (numlen, d)) % x
+                want = _numform(op4, d)(x)
                 b = struct.unpack("<Q", struct.pack("<d", x))[0]
                 req.append("fmt %d %d" % (d, b))
                 post.append(("fmt", (x, d), want))
@@ -1556,8 +1555,8 @@ def correspondence(ctx):
                 model = bytes.fromhex(r).decode("latin1") if r != "bad-op" else r
                 x, d = inp
                 ctx.case(("fmt", x, d), nontrivial=True, branch="stream:fmt")
-                if len(model) != d + 7:
-                    ctx.count("branch:fmt-overwide")
+                if len("%.*E" % (d, x)) > d + 7:
+                    ctx.count("branch:fmt-fallback")  # negative, three-digit exponent: printed with one digit less
                 if model != impl:
                     ctx.disagree("fmt", {"x": repr(x), "digits": d}, impl, model)
             else:
@@ -1571,6 +1570,8 @@ def correspondence(ctx):
                         ctx.count("kind:" + m["kind"] + ("-complex" if m["cplx"] else "-real"))
                     if r == "struct_error":
                         ctx.count("branch:struct_error")
+                    if case["opt"] == "nonbigmat" and any(_long_string(m["D"], m["cplx"]) for m in case["mats"]):
+                        ctx.count("branch:split-string")  # a run of >= 16384 rows (8192 complex): _split_strings
                     model = r
                 elif stream in ("dec-d", "dec-s", "dec-a"):
                     model = _parse_dec(r)
@@ -1591,6 +1592,8 @@ def correspondence(ctx):
                         ctx.count("aread:" + case["opt"] + ("-complex" if any(m["cplx"] for m in case["mats"]) else "-real"))
                         if model[0] == "error":
                             ctx.count("aread:rejected")
+                        if any(_neg3(_logical(m), d_) for m in case["mats"]):
+                            ctx.count("aread:neg3")  # a negative value with a three-digit exponent, read back
                 else:
                     model = r
                 if model != impl:
@@ -1612,10 +1615,10 @@ def correspondence(ctx):
             for d in ctx.disagreements[:6]]
         if not ctx.disagreements and not ctx.broken:  # (an already broken run may make branches unreachable)
             ctx.require_branches(["stream:colstats", "stream:fmt", "stream:enc", "stream:dec-d", "stream:dec-s",
-                              "stream:dec-a", "stream:dir", "stream:asc", "branch:struct_error",
-                              "branch:fmt-overwide", "opt:auto", "opt:dense", "opt:bigmat", "opt:nonbigmat",
+                              "stream:dec-a", "stream:dir", "stream:asc", "branch:split-string",
+                              "branch:fmt-fallback", "opt:auto", "opt:dense", "opt:bigmat", "opt:nonbigmat",
                               "kind:sparse-complex", "kind:ndarray-real", "read:dec-a-sparse", "read:dec-a-dense",
-                              "stream:aread", "aread:rejected", "aread:dense-real", "aread:dense-complex",
+                              "stream:aread", "aread:neg3", "aread:dense-real", "aread:dense-complex",
                               "aread:bigmat-real", "aread:bigmat-complex", "aread:nonbigmat-real",
                               "aread:nonbigmat-complex", "digits:default", "digits:>16"]
                              + ["digits:%d" % d for d in range(1, 17)]
@@ -1642,6 +1645,20 @@ def correspondence(ctx):
 
 # ---------------------------------------------------------------------------------------------
 # model-free oracle:  read(write(x)) == x
+
+
+_NUMFORM = {}
+
+
+def _numform(op4, digits):
+    """the function `numform(value)` that `_write_ascii_header` hands to every ASCII writer (a '%' string before the
+    repair of F3: wrapped, so that a reverted tree is compared too)"""
+    key = (id(op4), digits)
+    if key not in _NUMFORM:
+        import io
+        nf = op4.OP4()._write_ascii_header(io.StringIO(), "a", np.ones((1, 1)), digits, bigmat=False, form=None)[4]
+        _NUMFORM[key] = nf if callable(nf) else (lambda v, _f=nf: _f % v)
+    return _NUMFORM[key]
 
 
 def _neg3(D, digits):
@@ -1687,10 +1704,19 @@ def _same_bits(a, b):
 
 
 def _rounded(D, digits):
-    """x rounded to digits+1 significant decimal digits, then to the nearest double"""
+    """what an ASCII file written with `digits` must read back as: x rounded to digits+1 significant decimal digits -
+    digits for a negative value with a three-digit exponent, which is written with one digit less so that it fits its
+    field (documented in _write_ascii_header since the repair of F3) - then to the nearest double"""
     v = np.ascontiguousarray(D)
     flat = (v.view(np.float64) if np.iscomplexobj(v) else v).reshape(-1)
-    out = np.array([float("%.*E" % (digits, x)) for x in flat.tolist()], float).reshape(flat.shape)
+
+    def one(x):
+        s = "%.*E" % (digits, x)
+        if len(s) > digits + 7:
+            s = "%.*E" % (max(digits - 1, 0), x)
+        return float(s)
+
+    out = np.array([one(x) for x in flat.tolist()], float).reshape(flat.shape)
     if np.iscomplexobj(v):
         return out.view(np.complex128).reshape(v.shape)
     return out.reshape(v.shape)
@@ -1716,10 +1742,10 @@ def _family(case, binary, what):
         if binary:
             if (case["opt"] == "nonbigmat" and D.shape[0] < 65536 and _long_string(D, m["cplx"])
                     and what == "write-raises"):
-                return KNOWN_F2
+                return FIXED_F2
         else:
             if _neg3(D, case["digits"]):
-                return KNOWN_F3
+                return FIXED_F3
     if binary and what in ("dir-raises", "namelist-raises") and any(m["D"].shape[1] == 0 for m in case["mats"]):
         return FIXED_F24
     kinds = "+".join(sorted({m["kind"] + ("-complex" if m["cplx"] else "-real") for m in case["mats"]}))
@@ -1804,7 +1830,7 @@ def _check_roundtrip_(op4, sc, case, inputs, binary):
                 return ("dtype", str(A.dtype), "complex" if m["cplx"] else "float")
             if int(rf[k]) not in _expected_form(m, case["forms"][k]):
                 return ("form", int(rf[k]), sorted(_expected_form(m, case["forms"][k])))
-            want = D if (binary or case["digits"] >= 16) else _rounded(D, case["digits"])
+            want = D if (binary or case["digits"] >= 17) else _rounded(D, case["digits"])
             if not _same_bits(A, want):
                 bad = np.argwhere(~((A == want) | ((A != A) & (want != want))))
                 i, j = (int(bad[0][0]), int(bad[0][1])) if len(bad) else (-1, -1)
@@ -1830,7 +1856,7 @@ def _check_roundtrip_(op4, sc, case, inputs, binary):
     for nm, X in dct.items():
         k = max(i for i, n in enumerate(names) if n == nm)
         m = case["mats"][k]
-        want = m["D"] if (binary or case["digits"] >= 16) else _rounded(m["D"], case["digits"])
+        want = m["D"] if (binary or case["digits"] >= 17) else _rounded(m["D"], case["digits"])
         if not _same_bits(np.asarray(X), want):
             return ("dict-values", nm, "matrix %d" % k)
     # named subsets = the full read filtered by name: every single name (a repeated one included), as a string and
@@ -1851,7 +1877,7 @@ def _check_roundtrip_(op4, sc, case, inputs, binary):
                 return ("namelist", sn, [names[i] for i in idx])
             for X, i in zip(sm, idx):
                 m = case["mats"][i]
-                want = m["D"] if (binary or case["digits"] >= 16) else _rounded(m["D"], case["digits"])
+                want = m["D"] if (binary or case["digits"] >= 17) else _rounded(m["D"], case["digits"])
                 if not _same_bits(np.asarray(X), want):
                     return ("namelist-values", arg, "matrix %d" % i)
             if list(sd) != list(dict.fromkeys(names[i] for i in idx)):
@@ -1859,7 +1885,7 @@ def _check_roundtrip_(op4, sc, case, inputs, binary):
             for nm, X in sd.items():
                 k = max(i for i in idx if names[i] == nm)
                 m = case["mats"][k]
-                want = m["D"] if (binary or case["digits"] >= 16) else _rounded(m["D"], case["digits"])
+                want = m["D"] if (binary or case["digits"] >= 17) else _rounded(m["D"], case["digits"])
                 if not _same_bits(np.asarray(X), want):
                     return ("namelist-dict-values", nm, "matrix %d (the last of that name)" % k)
     return None
@@ -2038,7 +2064,7 @@ def _oracle_variant(ctx, op4, sc, case):
 def _unrepresentable(case):
     """ASCII with fewer than 17 significant digits: a value that rounds past the largest double cannot be
     'read back to the requested digits' (it reads as inf) - outside the property's domain"""
-    if case["digits"] >= 16:
+    if case["digits"] >= 17:
         return False
     for m in case["mats"]:
         D = m["D"]
@@ -2069,8 +2095,7 @@ def _oracle_case(ctx, op4, sc, case, rng, record=True):
         fails.append(f)
         if record:
             ctx.fail(f["family"], f["what"], f["input"], f["observed"], f["required"])
-            if f["family"] not in (KNOWN_F2, KNOWN_F3):
-                ctx.extra["unknown_failures"] = ctx.extra.get("unknown_failures", 0) + 1
+            ctx.extra["unknown_failures"] = ctx.extra.get("unknown_failures", 0) + 1
     return fails
 
 
